@@ -87,7 +87,7 @@ FAMILY = dict(
           dict(quick=10, thorough=200), ["C06"], sw=True),
         G("C03a", BASE2, ["Submit", "SubmitWin", "CreateRequest", "Authorize"], 10,
           dict(quick=150, thorough=3000), ["C03"]),
-        G("C05a", BASE3, ["Authorize", "Nid", "Remove", "GenCerts", "GenNear", "KeyKind"], 12,
+        G("C05a", BASE3, ["Authorize", "Nid", "Remove", "GenCerts", "GenNear", "KeyKind", "PrevCert"], 12,
           dict(quick=120, thorough=2500), ["C05"], nidl=True),
         G("C05b", BASE3, ["Authorize", "Nid", "Remove", "GenCerts", "GenNear", "KeyKind"], 10,
           dict(quick=60, thorough=1000), ["C05"], nidl=False),
